@@ -42,7 +42,7 @@ pub struct RawGen {
     shadow_groups: usize,
 }
 
-pub const RAW_FAMILIES: [&str; 20] = [
+pub const RAW_FAMILIES: [&str; 21] = [
     "defmacro",
     "callmacro",
     "cond_open",
@@ -62,6 +62,7 @@ pub const RAW_FAMILIES: [&str; 20] = [
     "expandafter",
     "let_builtin",
     "shadow_builtin",
+    "frac_dimen",
     "dump",
 ];
 
@@ -478,6 +479,24 @@ impl RawGen {
                 } else {
                     None
                 }
+            }
+            "frac_dimen" => {
+                // Negative and fractional dimensions and glue components (also saved by groups).
+                self.reach.push("fractional_or_negative_dimension");
+                let vals = ["-1.5pt", "-0.25pt", "0.33333pt", "-16383.99998pt", "1.99999pt", "-.00002pt", "12.3456pt", "-7.5pt"];
+                let v = vals[rng.below(vals.len())];
+                let w = vals[rng.below(vals.len())];
+                Some(match rng.below(5) {
+                    0 => format!("\\dimen14={v} \\the\\dimen14;"),
+                    1 => format!("\\skip14={v} plus {w} minus {v}\\relax \\the\\skip14;"),
+                    2 => format!("\\global\\dimen15={v} "),
+                    3 => "\\the\\dimen14;\\the\\dimen15;\\the\\skip14;".to_string(),
+                    _ => format!(
+                        "\\skip15=0pt plus {}fil minus {}fill\\relax \\the\\skip15;",
+                        v.trim_end_matches("pt"),
+                        w.trim_end_matches("pt")
+                    ),
+                })
             }
             "dump" => {
                 self.reach.push("dump_primitive");
